@@ -299,6 +299,10 @@ func ZZ_C10_Step() {
 		zzrt.Cover("replace")
 	case 4: // Init (reconnect), then drain the in-flight entries
 		clean := zzrt.ConcreteBool(zzrt.Bool())
+		var unreadExp []time.Time
+		for k := i; k < n; k++ {
+			unreadExp = append(unreadExp, ents[k].e.Expiry)
+		}
 		zzrt.Assert(q.Init(&queue.InitOptions{CleanStart: clean, Version: packets.Version5, ReadBytesLimit: 64, Notifier: nt}) == nil, "init-ok")
 		var got []*queue.Elem
 		for round := 0; round < n+2; round++ {
@@ -318,6 +322,11 @@ func ZZ_C10_Step() {
 				zzrt.Assert(got[k] == ents[k].e && got[k].ID() == ids[k], "inflight-replayed-in-order-with-ids")
 			}
 			zzrt.Assert(q.inflightDrained, "drained-after-replay")
+			// the replay is about the in-flight entries only: a queued message keeps its
+			// deadline (it must still expire when its lifetime is over)
+			for k := i; k < n; k++ {
+				zzrt.Assert(ents[k].e.Expiry.Equal(unreadExp[k-i]) && ents[k].e.Expiry.IsZero() == unreadExp[k-i].IsZero(), "replay-leaves-the-deadline-of-queued-messages-alone")
+			}
 			zzrt.Cover("init-resume")
 		}
 	case 5: // Close
